@@ -204,6 +204,24 @@ CHECKS.update({
              "specification's normal forms; any mismatch where they vanish, and any jtj mismatch, is a violation."),
 })
 
+CHECKS.update({
+    "C16": dict(
+        technique="TLA+ spec Rng (one global stream; outputs a function of seed, calls since seeding, configuration) checked "
+                  "exhaustively by TLC with two negative controls; TLC-generated session scripts performed on real models and "
+                  "validated by TLC (TR_Rng)",
+        level="model_checking",
+        text="MC_Rng: every history of seedings and runs in small scope satisfies Reproducible and SeedSensitive when every "
+             "source is the global stream; a fresh or constant-seeded local generator behind one configuration is found by TLC.  "
+             "Session scripts generated from the same specification (3 seeds, 8 configurations: exact / tau-leap, raw / gridded, "
+             "simulate_param / solve_determ with frozen and (sampler, args) random parameters, stochastic runs with random "
+             "parameters) are performed; TR_Rng accepts a session only if equal (seed, calls since seeding, configuration) give "
+             "equal output digests and equal global-generator states, different seeds give different continuous outputs, no "
+             "non-global generator is created during a serial call and the reported mean is the mean of the returned runs.",
+        design="5 C16, 3.8",
+        note="Outputs compared by SHA-256; numpy's seeding assumed deterministic; models are closed (bounded rates) so that "
+             "every run terminates."),
+})
+
 NOT_APPLICABLE = {
     "C14": "stateless real-valued kernels (log/lgamma): no transitions or histories for a TLA+ model to decide; "
            "the decisive comparison is floating-point agreement with reference densities, a different technique "
